@@ -346,7 +346,14 @@ func perturb4(v interface{}) interface{} {
 			m[k] = e
 		}
 		if len(m) > 0 && chance(0.7) {
-			for k, e := range m {
+			ks := make([]string, 0, len(m))
+			for k := range m {
+				ks = append(ks, k)
+			}
+			sortStrings(ks)
+			k := ks[rng.Intn(len(ks))]
+			e := m[k]
+			{
 				if chance(0.5) {
 					m[k] = perturb4(e)
 				} else if chance(0.5) {
@@ -354,7 +361,6 @@ func perturb4(v interface{}) interface{} {
 				} else {
 					m[k] = "changed"
 				}
-				break
 			}
 		} else {
 			m["new"] = true
@@ -363,7 +369,12 @@ func perturb4(v interface{}) interface{} {
 	case []interface{}:
 		l := append([]interface{}{}, x...)
 		if len(l) > 0 && chance(0.7) {
-			l[rng.Intn(len(l))] = "changed"
+			i := rng.Intn(len(l))
+			if chance(0.6) {
+				l[i] = perturb4(l[i]) // inside the element: an object in an array that gains or loses a member
+			} else {
+				l[i] = "changed"
+			}
 		} else {
 			l = append(l, false)
 		}
